@@ -1611,6 +1611,29 @@ class Evaluator:
             return tuple(out)
         if g.ifs:
             raise Outside("generator expression form")
+        if not (isinstance(g.iter, ast.Call) and isinstance(g.iter.func, ast.Name) and g.iter.func.id == "range"):
+            seq = self.eval(g.iter)
+            if isinstance(seq, SeqVal) and seq.n is not None:
+                # (elt for x in SEQ) / (elt for a, b in SEQ) over a symbolic sequence: element j is elt with the targets bound to SEQ[j]
+                names = [g.target.id] if isinstance(g.target, ast.Name) else ([e.id for e in g.target.elts] if isinstance(g.target, ast.Tuple) and all(isinstance(e, ast.Name) for e in g.target.elts) else None)
+                if names is None:
+                    raise Outside("generator target form")
+                snap = dict(self.st.env)
+                ex, outer = self.ex, self
+
+                def getter_seq(j):
+                    item = seq.getter(simp(Z(j)))
+                    st2 = outer.st.copy()
+                    st2.env = dict(snap)
+                    if isinstance(g.target, ast.Name):
+                        st2.env[names[0]] = item
+                    else:
+                        if not isinstance(item, (tuple, list)) or len(item) != len(names):
+                            raise Outside("generator unpacking")
+                        for nm, it in zip(names, item):
+                            st2.env[nm] = it
+                    return Evaluator(ex, st2, spec_mode=True, extra_env=outer.extra, old=outer.old).eval(n.elt)
+                return SeqVal(seq.n, getter_seq)
         if not (isinstance(g.iter, ast.Call) and isinstance(g.iter.func, ast.Name) and g.iter.func.id == "range" and isinstance(g.target, ast.Name)):
             raise Outside("generator over a non-range")
         args = [self.eval(a) for a in g.iter.args]
@@ -1757,6 +1780,17 @@ def Executor_call_builtin(self, name, st, args, kwargs, node, ev):
             return a.sym_len()
         raise Outside("len of " + type(a).__name__)
     if name in ("min", "max"):
+        if len(args) == 1 and isinstance(args[0], SeqVal) and args[0].n is not None:
+            # max / min of a symbolic non-empty sequence: a bound that is attained (empty: ValueError)
+            seq = args[0]
+            ev.wd(Z(seq.n) >= 1, name + "_of_nonempty", node)
+            e0 = seq.getter(z3.IntVal(0))
+            m = fresh(name + "_of_seq", "real" if is_real(e0) else "int")
+            j, w = z3.Int("mj!%d" % next(_fresh)), fresh("attained_at")
+            ej = Z(seq.getter(j))
+            st.assume(z3.ForAll([j], z3.Implies(z3.And(j >= 0, j < Z(seq.n)), (ej <= m) if name == "max" else (ej >= m))))
+            st.assume(z3.And(w >= 0, w < Z(seq.n), Z(seq.getter(w)) == m))
+            return m
         if len(args) == 1 and isinstance(args[0], (tuple, list)):
             args = list(args[0])
         return _minmax(name, args)
